@@ -266,6 +266,22 @@ def reinlla (c impl : List String) : Option Verdict := do
            else if got != want then "an RA of a re-established interface carries a source link-layer address other than the interface's hardware address at that (re)initialisation (stale plugin state)"
            else "" }
 
+/-- `flap monitor tf k | dials oldUse served`: the link drops at `tf` and again during each of the
+    next `k` dials (the notification is queued before the new incarnation watches the channel).
+    Every link-state change tears the task down and the interface is re-established (C10):
+    `k + 2` connections, the last one serving, the earlier ones no longer used. -/
+def flap (c impl : List String) : Option Verdict := do
+  let (_mon, _tf, k) ← P.run (do let m ← P.bool; let t ← P.int; let k ← P.nat; pure (m, t, k)) c
+  let (dials, oldUse, served) ← P.run (do let d ← P.nat; let o ← P.nat; let s ← P.bool; pure (d, o, s)) impl
+  let model := s!"{k + 2} 0 1"
+  let ok := dials == k + 2 && oldUse == 0 && served
+  pure { model := model, oracle := ok, nontrivial := decide (k ≥ 1),
+         note := if dials < k + 2 then "a link-state change notified while the interface was being re-established did not tear the new incarnation down (the task keeps serving on a connection opened before the link changed)"
+           else if dials > k + 2 then "more re-establishments than link-state changes"
+           else if oldUse != 0 then "a connection of a torn-down incarnation is still read from"
+           else if !served then "the re-established interface is not serving"
+           else "" }
+
 /-- `tfl n lat | outcome errors sentUnicast`: `n` answers in flight together, all failing: every
     failed transmission is counted once, none is counted as sent, the task ends with an error -/
 def tfl (c impl : List String) : Option Verdict := do
